@@ -960,6 +960,14 @@ func (in *Interp) lookup(fr *frame, instr *ssa.Lookup, x, idx Value) Value {
 	vt := instr.X.Type().Underlying().(*types.Map).Elem()
 	var v Value
 	ok := false
+	if m != nil && m.traced {
+		if k, isStr := idx.(Str); isStr && k.IsConcrete() {
+			if in.touched == nil {
+				in.touched = map[string]bool{}
+			}
+			in.touched[k.S] = true
+		}
+	}
 	if e := in.mapFind(fr, m, idx); e != nil {
 		v, ok = copyVal(e.v), true
 	} else {
